@@ -42,6 +42,8 @@ SPEC: Dict[str, Dict[str, Any]] = {
 
 def covered(pid: str, family: str) -> bool:
     ref = refmon.load_ref(family)
+    if pid == "C08":
+        return refmon.has(ref, "objective") or refmon.has(ref, "potential")
     return all(refmon.has(ref, fn) for fn in SPEC[pid]["needs"])
 
 
